@@ -19,7 +19,7 @@ func TestC03(t *testing.T) {
 	rc := fullRuleCfg()
 	rc.MinRules, rc.MaxRules, rc.ExprDepth, rc.MaxActions = 2, 7, 2, 2
 	rc.Forget = false
-	cfg := rsGenCfg{Rules: rc, Vary: true, JSONFront: true}
+	cfg := rsGenCfg{Rules: rc, Vary: true, JSONFront: true, GRB: true, Rejected: true}
 	_ = gen.Small
 	check(t, 0, budget(6000, 80000), func(rt *rapid.T) {
 		c, rs := genRSCase(rt, cfg)
